@@ -1452,6 +1452,9 @@ void tNMEA2000::SendHeartbeat(int iDev) {
 //*****************************************************************************
 void tNMEA2000::SendHeartbeat(bool force) {
   if ( !IsActiveNode() ) return;
+  // Before Open() has completed there is no bus to send to and the schedules still refer to the absolute clock (SyncOffset is set at open):
+  // a heartbeat must not become "due" - and use up a sequence number - depending on what the clock happens to read.
+  if ( !IsOpen() ) return;
 
   for (int iDev=0; iDev<DeviceCount; iDev++) {
     if ( !IsAddressClaimStarted(iDev) ) {
